@@ -17,21 +17,7 @@ FMT = ("one-sink/one-source elements: sink.valid, sink.data(payload|param packed
 
 # finding ids
 F_PACK = "C03-pack-stale-last"
-F_STRIDE = "C03-strideconv-up-param"
-# status of the findings in known_findings.json: set by correspond()/probes() from ctx.known before jobs are built
-STATUS = {}
-
-
-def _status(ctx):
-    STATUS.clear()
-    for e in ctx.known:
-        STATUS[e.get("id")] = e.get("status")
-
-
-def stride_gated():
-    """StrideConverter (up): which code is expected in /repo — the param register loaded on every clock edge
-    (unchanged tree) or, once the finding is recorded as fixed, loaded only together with a sub-word."""
-    return STATUS.get(F_STRIDE) == "fixed"
+F_STRIDE = "C03-strideup-param-garbage"
 
 
 def b(x):
@@ -39,6 +25,8 @@ def b(x):
 
 
 def toks(nbits, flags=True):
+    if nbits > 5:
+        return None          # wide data: mode B only, StreamInst's default tokens (data 0/1) for the alphabet
     vals = range(1 << nbits)
     if flags:
         return [(d, f, l) for d in vals for f in (0, 1) for l in (0, 1)]
@@ -98,12 +86,10 @@ def mk_stride(up, r, ws, pw, rev, tokens=None):
     wtxt = " ".join(map(str, ws))
     if up:
         m = stream.StrideConverter(narrow, wide, reverse=rev)
-        gated = stride_gated()
         return RG(StreamInst("StrideConverter(up x%d,%s+p%d%s)" % (r, ws, pw, ",reverse" if rev else ""), m,
-                             "strideup %d %d %d %d %s" % (r, pw, b(rev), b(gated), wtxt),
+                             "strideup %d %d %d %s" % (r, pw, b(rev), wtxt),
                              tokens=tokens or toks(nb + pw),
-                             spec=lambda: L.UpScoreboard(r, nb, pw, rev, check_param=gated,
-                                                         lane_of=stride_lane(ws, r))))
+                             spec=lambda: L.UpScoreboard(r, nb, pw, rev, lane_of=stride_lane(ws, r))))
     m = stream.StrideConverter(wide, narrow, reverse=rev)
     return RG(StreamInst("StrideConverter(down /%d,%s+p%d%s)" % (r, ws, pw, ",reverse" if rev else ""), m,
                          "stridedown %d %d %d %s" % (r, pw, b(rev), wtxt), tokens=tokens or toks(nb * r + pw),
@@ -135,7 +121,7 @@ def mk_cast(ws_from, ws_to, rf, rt):
     n = sum(ws_from)
     return RG(StreamInst("Cast(%s->%s,%d,%d)" % (ws_from, ws_to, b(rf), b(rt)), m,
                          "cast %d %d %d %s" % (b(rf), b(rt), len(ws_from), " ".join(map(str, ws_from + ws_to))),
-                         tokens=toks(n) if n <= 4 else None,
+                         tokens=toks(n),
                          spec=lambda: L.MapScoreboard(L.cast_fn(ws_from, ws_to, rf, rt))))
 
 
@@ -152,7 +138,7 @@ def mk_bufferized_up(r, nb, rev, tokens=None):
     m = cls(nb, nb * r, r, rev)
     return RG(StreamInst("BufferizeEndpoints(_UpConverter(%d->%d))" % (nb, nb * r), m,
                          "bufferized_up %d %d %d" % (r, nb, b(rev)), tokens=tokens or toks(nb),
-                         spec=lambda: L.UpScoreboard(r, nb, 0, rev, vtc=True)))
+                         spec=lambda: L.UpScoreboard(r, nb, 0, rev, vtc=True, max_words=3)))
 
 
 def jobs(tier):
@@ -265,14 +251,12 @@ def jobs(tier):
 
 
 def correspond(ctx):
-    _status(ctx)
     ctx.jobs = jobs(ctx.tier)
     dis, bad = run_jobs(ctx, ctx.jobs)
     return dis
 
 
 def search(ctx, disagreements, proof_info):
-    _status(ctx)
     return generic_search(ctx, disagreements, getattr(ctx, "jobs", None) or jobs(ctx.tier), FMT)
 
 
@@ -285,7 +269,6 @@ def _probe(inst, trace):
 
 
 def probes(ctx):
-    _status(ctx)
     out = []
     # F5 (fixed bb9626a): Pack, n = 2.  Sub-words 1,1 complete a word; while the consumer takes it the sink is
     # invalid but carries last = 1; the next word (sub-words 0,0 without last) must not be marked last.
@@ -293,25 +276,18 @@ def probes(ctx):
     w = [(1, 1, 0, 0, 0), (1, 1, 0, 0, 0), (0, 0, 0, 1, 1), (1, 0, 0, 0, 0), (1, 0, 0, 0, 0), (0, 0, 0, 0, 1)]
     fails, what = _probe(inst, w)
     out.append((F_PACK, fails, "Pack(n=2): sink invalid with last=1 during a source handshake; " + what))
-    # candidate finding: StrideConverter (up) registers source.param on every clock edge.  A completed word of
-    # packet A (param 1) that waits for the consumer is delivered with the param of the next offered sub-word.
-    inst = mk_stride(True, 2, [1], 2, False)
-    inst.spec = lambda: L.UpScoreboard(2, 1, 2, False, check_param=True)
+    # fixed 3f0170f: StrideConverter (up).  A completed word of packet A (param 1) waits for the consumer
+    # (a) while the producer idles with other values on the param lines, (b) while it offers the first sub-word
+    # of packet B (param 2).  The delivered param must be the one accepted with the word.
     pa, pb = 1 << 1, 2 << 1                                     # param field sits above the 1-bit payload
-    w = [(1, 1 | pa, 1, 0, 0), (1, 0 | pa, 0, 1, 0), (1, 1 | pb, 1, 0, 0), (1, 1 | pb, 1, 0, 1)]
-    fails, what = _probe(inst, w)
-    what = "StrideConverter(up): word delivered under back-pressure carries the param of the next sub-word; " + what
-    if F_STRIDE in STATUS:
-        out.append((F_STRIDE, fails, what))
-    else:
-        # not (yet) listed in known_findings.json: reported to the coordinator, shown in the log and the evidence
-        line = "CANDIDATE-FINDING: property=C03 id=%s %s: %s" % (F_STRIDE, "reproduces" if fails else "does not reproduce", what)
-        print(line, flush=True)
-        ctx.cov.notes.append(line)
+    for tag, stall in (("idle producer", (0, 1 | pb, 1, 1, 0)), ("next packet offered", (1, 1 | pb, 1, 0, 0))):
+        inst = mk_stride(True, 2, [1], 2, False)
+        w = [(1, 1 | pa, 1, 0, 0), (1, 0 | pa, 0, 1, 0), stall, stall[:4] + (1,)]
+        fails, what = _probe(inst, w)
+        out.append((F_STRIDE, fails, "StrideConverter(up), word stalled at the source, %s; %s" % (tag, what)))
     return out
 
 
 def replay(ctx, payload):
     from explore import generic_replay
-    _status(ctx)
     return generic_replay(ctx, payload, jobs("thorough"))
